@@ -301,7 +301,7 @@ pub fn svg_discovered(sink: &mut Sink, seed: u64, corpus: &str) {
         let Ok(s) = String::from_utf8(data) else { continue };
         // characters that no XML 1.0 document can carry (NUL, most C0 controls, U+FFFE/U+FFFF) are outside the property's domain
         // (references are URLs, data URIs and paths): no claim
-        if !s.chars().all(xml_char) { continue; }
+        if !s.chars().all(|c| xml_char(c) && (c as u32) >= 0x20) { continue; }      // and no TAB / CR / LF: references are URLs, data URIs and paths
         let mut variants = vec![s.clone()];
         let cuts: Vec<usize> = [s.find(':').map(|i| i + 1), s.find(';'), s.rfind(',')].into_iter().flatten().collect();
         for c in cuts { for sp in ["\"", "&"] { let mut t = s.clone(); t.insert_str(c, sp); variants.push(t); } }
@@ -380,6 +380,15 @@ pub fn svg(sink: &mut Sink, seed: u64, thorough: bool) {
             let id = sink.id();
             sink.emit(&svg_event(id, &format!("svgimg:{i}"), &qr, &[Call::ImageBackgroundShape(k), Call::Image(s.clone())]));
         }
+    }
+    // every value of every colour channel once (hex digits, leading zeros, the #rrggbb / #rrggbbaa switch at alpha 255), in arrays of 4 and 3
+    for c in 0..256usize {
+        if !thorough && c % 3 != (seed % 3) as usize && !(c < 17 || c > 252) { continue; }
+        let c8 = c as u8;
+        let id = sink.id();
+        let prog = if c % 2 == 0 { vec![Call::ModuleColor(vec![c8, 255 - c8, c8.wrapping_mul(7), 255]), Call::BackgroundColor(vec![9, c8, 200, c8])] }
+                   else { vec![Call::ShapeColor(c % 6, vec![255 - c8, c8, 15, c8]), Call::BackgroundColor(vec![c8, c8, c8])] };
+        sink.emit(&svg_event(id, "svgcolor", &q1m(seed), &prog));
     }
     // four-digit and larger margins: coordinates beyond 999 (every shape on the smallest symbol, two on the largest)
     for (i, m) in [824usize, 979, 980, 999, 1000, 1001, 1024, 1025, 1100, 2000, 9999, 10000, 65535, 65536, 100000].into_iter().enumerate() {
